@@ -128,4 +128,17 @@ pub fn run(ctx: &Ctx) {
     ctx.guard_check("conforming and non-conforming documents both seen", acc >= 10 && rej >= 40, format!("{acc} accepting classes, {rej} rejecting classes"));
     crate::hist::histories(ctx, P, "document-histories-c09", "TypedData from JSON and its three digests, a sequence on one fresh thread", crate::hist::td_ops());
     crate::tdcheck::value_pairs(ctx, P, "value-pairs-c09");
+    // the domain VALUE carries a member with a STANDARD name that the document's own EIP712Domain type does not declare (a
+    // chain id or contract the user sees but the signature does not bind): an undeclared member, refused - for every
+    // non-empty in-order selection of the five standard fields and every standard field outside it, with a well-formed value and null
+    let fields = refmodel::eip712::DOMAIN_FIELDS; let mut und: Vec<(u32, usize, bool)> = Vec::new();
+    for mask in 1u32..31 { for extra in 0..5usize { if mask >> extra & 1 == 0 { und.push((mask, extra, false)); und.push((mask, extra, true)); } } }
+    ctx.sweep("undeclared-standard-domain-member", "every non-empty proper selection of the standard domain fields as the type x every standard field outside it added to the domain value (well-formed value, null): refused", und.len() as u64, |i| {
+        let (mask, extra, null) = und[i as usize];
+        let members: Vec<(String, String)> = (0..5).filter(|k| mask >> k & 1 == 1).map(|k| (fields[k].0.to_string(), fields[k].1.to_string())).collect();
+        let mut dom: Vec<(String, J)> = members.iter().map(|(n, t)| (n.clone(), crate::c20::value_for(t))).collect();
+        let pos = (i as usize) % (dom.len() + 1); dom.insert(pos, (fields[extra].0.to_string(), if null { J::Null } else { crate::c20::value_for(fields[extra].1) }));
+        let d = refmodel::eip712::Doc { types: vec![("EIP712Domain".into(), members), ("Msg".into(), sv(&[("x", "uint256")]))], primary: "Msg".into(), domain: J::Obj(dom), message: J::obj(vec![("x", J::n("7"))]) };
+        check_doc(ctx, P, "undeclared-standard-domain-member", i, &format!("domain-value:undeclared-standard-member={}{}", fields[extra].0, if null { ",null" } else { "" }), &d);
+    });
 }
